@@ -203,7 +203,8 @@ pub fn run_map(ctx: &Ctx, dir: &std::path::Path, c: &Case, m: &Mat, vcf: bool) -
     let to_file = (c.k / 2 + m.samples.len() + c.ambig_mask as usize) % 2 == 1;
     let out_name = if vcf { "map_out.vcf" } else { "map_out.aln" };
     if to_file {
-        let _ = std::fs::remove_file(dir.join(out_name));
+        // the output file already exists and is long: it must be replaced, not overwritten from the start
+        cli::plant_stale_output(&dir.join(out_name));
         args.push("-o".into());
         args.push(out_name.into());
     }
